@@ -17,7 +17,21 @@ theorem cosh_eq (x : TwoFloat) : TwoFloat.cosh x = (TwoFloat.exp x /. two) +. (T
 theorem sinh_eq (x : TwoFloat) : TwoFloat.sinh x = (TwoFloat.exp x /. two) -. (TwoFloat.exp (neg x) /. two) := rfl
 theorem tanh_eq (x : TwoFloat) :
     TwoFloat.tanh x = (TwoFloat.exp x -. TwoFloat.exp (neg x)) /. (TwoFloat.exp x +. TwoFloat.exp (neg x)) := rfl
-theorem acosh_eq (x : TwoFloat) : TwoFloat.acosh x = TwoFloat.ln (x +. TwoFloat.sqrt ((x *. x) -. onef)) := rfl
+/-- `acosh` tests `self < 1.0` first (domain error: `NAN`), then evaluates `ln(x + sqrt(x² − 1))` -/
+theorem acosh_eq (x : TwoFloat) :
+    TwoFloat.acosh x =
+      if ROrd.isLt (base.impl_PartialOrd_f64_for_TwoFloat.partial_cmp x onef) = true then TwoFloat.NAN
+      else TwoFloat.ln (x +. TwoFloat.sqrt ((x *. x) -. onef)) := rfl
+
+theorem acosh_of_lt (x : TwoFloat)
+    (h : ROrd.isLt (base.impl_PartialOrd_f64_for_TwoFloat.partial_cmp x onef) = true) :
+    TwoFloat.acosh x = TwoFloat.NAN := by
+  rw [acosh_eq, if_pos h]
+
+theorem acosh_of_not_lt (x : TwoFloat)
+    (h : ROrd.isLt (base.impl_PartialOrd_f64_for_TwoFloat.partial_cmp x onef) = false) :
+    TwoFloat.acosh x = TwoFloat.ln (x +. TwoFloat.sqrt ((x *. x) -. onef)) := by
+  rw [acosh_eq, if_neg (by rw [h]; exact Bool.false_ne_true)]
 theorem atanh_eq (x : TwoFloat) : TwoFloat.atanh x = TwoFloat.ln ((onef +. x) /. (onef -. x)) /. two := rfl
 
 /-- asinh is computed on |x| and the sign restored (so asinh(−x) = −asinh(x) bit for bit, see below) -/
@@ -46,7 +60,9 @@ theorem asinh_odd (x y : TwoFloat) (habs : TwoFloat.abs x = TwoFloat.abs y)
 theorem sinh_pf_eq_cosh_pf : TwoFloat.sinh.pf = TwoFloat.cosh.pf := rfl
 theorem tanh_pf_eq_cosh_pf : TwoFloat.tanh.pf = TwoFloat.cosh.pf := rfl
 theorem acosh_pf_eq (x : TwoFloat) :
-    TwoFloat.acosh.pf x = TwoFloat.ln.pf (x +. TwoFloat.sqrt ((x *. x) -. onef)) := rfl
+    TwoFloat.acosh.pf x =
+      if ROrd.isLt (base.impl_PartialOrd_f64_for_TwoFloat.partial_cmp x onef) = true then true
+      else TwoFloat.ln.pf (x +. TwoFloat.sqrt ((x *. x) -. onef)) := rfl
 theorem atanh_pf_eq (x : TwoFloat) : TwoFloat.atanh.pf x = TwoFloat.ln.pf ((onef +. x) /. (onef -. x)) := rfl
 
 /-! ### exact points -/
